@@ -30,11 +30,16 @@ FORMS = {"async": "arn:aws:states:local::states:startExecution",
          "sdk": "arn:aws:states:local::aws-sdk:sfn:startSyncExecution"}
 TOL = 2e-3
 
+FALSY = [[], {}, 0, "", False, None]
+
 CHILDREN = {
     "ok": ({"StartAt": "T", "States": {"T": {"Type": "Task", "Resource": F + "cwork", "ResultPath": "$.r", "Next": "P"},
                                        "P": {"Type": "Pass", "End": True}}}, "SUCCEEDED"),
     "fail": ({"StartAt": "T", "States": {"T": {"Type": "Task", "Resource": F + "cwork", "Next": "X"},
                                          "X": {"Type": "Fail", "Error": "E.Child", "Cause": "child failed"}}}, "FAILED"),
+    # the child SUCCEEDS with an output that is falsy in Python ([] {} 0 "" false null): still an output
+    "falsy": ({"StartAt": "P", "States": {"P": {"Type": "Pass", "Parameters": {"v.$": "$.k"}, "OutputPath": "$.v", "End": True}}},
+              "SUCCEEDED"),
     "slow": ({"StartAt": "W", "States": {"W": {"Type": "Wait", "Seconds": 6, "Next": "T"},
                                          "T": {"Type": "Task", "Resource": F + "cwork", "Next": "T2"},
                                          "T2": {"Type": "Task", "Resource": F + "cwork2", "End": True}}}, "SUCCEEDED"),
@@ -67,6 +72,17 @@ def parent_machine(form, placement, timeout=None, catch=False, child_name="child
         "k.$": "$$.Map.Item.Value"}, "ItemProcessor": inner, "End": True}}}
 
 
+def jl(text):
+    """The JSON value of a notification's output field (which is JSON text; a field that is not text is reported by the
+    shape rules, the value is used as it is so that the other rules can still be evaluated)."""
+    if isinstance(text, str):
+        try:
+            return json.loads(text)
+        except ValueError:
+            return None
+    return text
+
+
 def find_child_results(out, acc=None):
     """All values stored under 'child' in the parent's output."""
     acc = [] if acc is None else acc
@@ -89,8 +105,10 @@ def add(findings, rule, detail, witness=None):
 # ------------------------------------------------------------------------------------------
 def child_case(rng, seed):
     form = rng.choice(["async", "sync", "sync", "sync2", "sync2", "sdk"])
-    kind = rng.choice(["ok", "ok", "fail", "slow"])
+    kind = rng.choice(["ok", "ok", "fail", "slow", "falsy"])
     placement = rng.choice(["top", "top", "parallel", "map"])
+    if kind == "falsy" and placement == "map":
+        placement = "top"
     ptype = rng.choice(["STANDARD", "STANDARD", "EXPRESS"])
     ctype = rng.choice(["STANDARD", "EXPRESS"])
     catch = rng.random() < 0.4
@@ -101,6 +119,8 @@ def child_case(rng, seed):
     cfg["execution_ttl"] = 600
     cdef, cstatus = CHILDREN[kind]
     inp = {"k": 7, "items": [1, 2]} if placement == "map" else {"k": 7}
+    if kind == "falsy":
+        inp["k"] = rng.choice(FALSY[:5])      # (null as a whole document is a recorded C01 finding)
     script = {"cwork": [{"ok": {"op": "wrap"}, "delay": 2.0}], "cwork2": [{"ok": {"op": "tag"}, "delay": 1.0}]}
     scn = {"machines": {"child": {"definition": cdef, "type": ctype},
                         "parent": {"definition": parent_machine(form, placement, timeout, catch,
@@ -149,7 +169,7 @@ def check_child(scn, meta, seed):
     if len(childs) != n_expected:
         add(findings, "child-count", "%d child executions, expected %d (%r)" % (len(childs), n_expected, meta))
         return res, findings
-    out = json.loads(pd["output"]) if pd.get("output") else None
+    out = jl(pd["output"]) if pd.get("output") else None
     cstatus = CHILDREN[kind][1]
     for carn, evs in childs.items():
         term = [e for e in evs if e[0] != "RUNNING"]
@@ -174,6 +194,12 @@ def check_child(scn, meta, seed):
         cd = term[0][2]
         if cd["status"] != cstatus:
             add(findings, "child-status", "child ended %s, expected %s" % (cd["status"], cstatus))
+        # handing the result to the parent must leave the child's own story alone: JSON text in its notifications
+        for st_, t_, d_ in evs:
+            if not isinstance(d_.get("input"), str) or (d_.get("output") is not None and not isinstance(d_.get("output"), str)):
+                add(findings, "child-notification-rewritten", "%s notification of the child carries input %r output %r "
+                                                                "(JSON text expected)" % (st_, d_.get("input"), d_.get("output")), witness=form)
+                break
         if cstatus == "SUCCEEDED":
             rs = [r for r in find_child_results(out) if isinstance(r, dict) and r.get("ExecutionArn") == carn]
             if pd["status"] != "SUCCEEDED" or not rs:
@@ -184,7 +210,7 @@ def check_child(scn, meta, seed):
             r = rs[0]
             if set(r.keys()) != RESULT_KEYS:
                 add(findings, "sync-result-fields", "fields %s, documented %s" % (sorted(r.keys()), sorted(RESULT_KEYS)), witness=form)
-            want_out = json.loads(cd["output"])
+            want_out = jl(cd["output"])
             if form == "sync2":
                 if r.get("Output") != want_out or r.get("Input") != {"k": r.get("Input", {}).get("k")}:
                     add(findings, "sync-result-output", ".sync:2 Output %r, child's output %r" % (r.get("Output"), want_out), witness=form)
@@ -331,7 +357,7 @@ def check_token(scn, meta, seed):
         # the scripted worker answers every request with an error, so the second task fails by its own reply
         if d2 is None or d2["status"] != "FAILED" or d2.get("error") != "E.Worker":
             add(findings, "error-reply", "second task: %r" % (d2 and (d2["status"], d2.get("error")),), witness=stream)
-    elif d2 is None or d2["status"] != "SUCCEEDED" or json.loads(d2["output"]).get("cb") != {"answer": "second"}:
+    elif d2 is None or d2["status"] != "SUCCEEDED" or (jl(d2["output"]) or {}).get("cb") != {"answer": "second"}:
         add(findings, "token-affected-other-task", "second task (own valid token at t=5) ended %r" % (
             d2 and (d2["status"], d2.get("output"), d2.get("error")),), witness=stream)
     elif meta["exact"] and abs(t2 - (t0 + 5.0)) > TOL:
@@ -340,7 +366,7 @@ def check_token(scn, meta, seed):
     if d1 is None:
         add(findings, "never-terminal", "first execution never ended (%s)" % stream, witness=stream)
         return res, findings
-    out1 = json.loads(d1["output"]) if d1.get("output") else None
+    out1 = jl(d1["output"]) if d1.get("output") else None
     if stream in ("valid", "duplicate", "reply-then-callback", "other-token"):
         if d1["status"] != "SUCCEEDED" or out1.get("cb") != {"answer": 42}:
             add(findings, "callback-result", "valid token with output {'answer': 42}: execution ended %s %r %r" % (
@@ -369,10 +395,124 @@ def check_token(scn, meta, seed):
     return res, findings
 
 
+def seq_case(rng, seed):
+    """Several .waitForTaskToken requests in ONE execution: two callback Tasks in sequence, or a callback Task that is
+    retried after SendTaskFailure - every request carries a token of its own, and only that token completes it."""
+    shape = rng.choice(["two-in-sequence", "retried-after-failure", "two-in-parallel"])
+    policy = rng.choice(["canonical", "shuffle", "latency-small"])
+    cfg = E.policy_cfg(policy)
+    cfg["execution_ttl"] = 600
+    res = "arn:aws:states:local::rpcmessage:invoke.waitForTaskToken"
+
+    def task(tag, nxt, retry=False):
+        t = {"Type": "Task", "Resource": res, "ResultPath": "$." + tag, "TimeoutSeconds": 20,
+             "Parameters": {"FunctionName": F + "cb", "Payload": {"token.$": "$$.Task.Token", "tag": tag}}}
+        if retry:
+            t["Retry"] = [{"ErrorEquals": ["E.Again"], "IntervalSeconds": 1, "MaxAttempts": 2, "BackoffRate": 1.0}]
+        if nxt:
+            t["Next"] = nxt
+        else:
+            t["End"] = True
+        return t
+    if shape == "two-in-sequence":
+        d = {"StartAt": "A", "States": {"A": task("a", "B"), "B": task("b", None)}}
+    elif shape == "retried-after-failure":
+        d = {"StartAt": "A", "States": {"A": task("a", None, retry=True)}}
+    else:
+        d = {"StartAt": "P", "States": {"P": {"Type": "Parallel", "End": True, "Branches": [
+            {"StartAt": "A", "States": {"A": task("a", None)}}, {"StartAt": "B", "States": {"B": task("b", None)}}]}}}
+    scn = {"machines": {"tok": {"definition": d, "type": "STANDARD"}},
+           "executions": [{"machine": "tok", "input": {"k": 1}, "name": "s1"}],
+           "script": {"cb": [{"noreply": True}]}, "functions": ["cb"], "config": cfg}
+    return scn, dict(shape=shape, policy=policy, exact=cfg["latency"] == "zero")
+
+
+def check_seq(scn, meta, seed):
+    findings = []
+    shape = meta["shape"]
+    calls = []
+
+    def before(res):
+        sim, w = res.sim, res.world
+
+        def nth_token(tag, n):
+            ts = [r["payload"]["token"] for r in w.workers.requests if isinstance(r["payload"], dict) and
+                  r["payload"].get("tag") == tag]
+            return ts[n] if len(ts) > n else None
+
+        def send(action, tag, n, params, label):
+            def go():
+                tk = nth_token(tag, n)
+                if tk is None:
+                    calls.append((label, None))
+                    return
+                p = dict(params)
+                p["taskToken"] = tk
+                calls.append((label, w.api.call(w.nodes[0], action, p)))
+            return go
+        t0 = sim.now
+        ok = lambda v: {"output": json.dumps({"answer": v})}
+        if shape == "two-in-sequence":
+            sim.call_at(t0 + 2.0, send("SendTaskSuccess", "a", 0, ok("first"), "a"), None, kind="client", label="cbA")
+            sim.call_at(t0 + 5.0, send("SendTaskSuccess", "b", 0, ok("second"), "b"), None, kind="client", label="cbB")
+        elif shape == "retried-after-failure":
+            sim.call_at(t0 + 2.0, send("SendTaskFailure", "a", 0, {"error": "E.Again", "cause": "try again"}, "a-fail"),
+                        None, kind="client", label="cbA")
+            # the retried request (published at t=3) carries a new token; the old one must not complete it
+            sim.call_at(t0 + 5.0, send("SendTaskSuccess", "a", 0, ok("stale"), "a-stale"), None, kind="client", label="cbS")
+            sim.call_at(t0 + 7.0, send("SendTaskSuccess", "a", 1, ok("fresh"), "a-fresh"), None, kind="client", label="cbF")
+        else:
+            sim.call_at(t0 + 2.0, send("SendTaskSuccess", "b", 0, ok("second"), "b"), None, kind="client", label="cbB")
+            sim.call_at(t0 + 4.0, send("SendTaskSuccess", "a", 0, ok("first"), "a"), None, kind="client", label="cbA")
+    mons = [NotifyMonitor(PROP, check_shape=False), BrokerMonitor(carrier=False)]
+    res = run_scenario(scn, seed, monitors=mons, before_run=before, horizon=1500)
+    for f in res.findings:
+        if f["property"] in (PROP, "C03") and f["rule"] in ("terminal-twice", "running-twice", "never-terminal", "ack-twice",
+                                                            "never-acked", "leak"):
+            findings.append(dict(f, property=PROP, witness=f.get("witness") or shape))
+    w = res.world
+    evs = w.terminal_events().get(E.EX_ARN % ("tok", "s1"), [])
+    by = dict(calls)
+    toks = [r["payload"]["token"] for r in w.workers.requests if isinstance(r["payload"], dict) and "token" in r["payload"]]
+    if len(set(toks)) != len(toks):
+        add(findings, "token-not-unique", "%d requests carried %d distinct tokens" % (len(toks), len(set(toks))), witness=shape)
+    for lbl, rec in calls:
+        if rec is None:
+            add(findings, "token-request-missing", "no request to take the token for callback %r from (requests: %d)" % (
+                lbl, len(toks)), witness=shape)
+    if not evs:
+        add(findings, "never-terminal", "execution with %s never ended" % shape, witness=shape)
+        return res, findings
+    d = evs[0]["body"]["detail"]
+    t_end = evs[0]["published_at"]
+    t0 = [c for c in w.api.calls if c["action"] == "StartExecution"][0]["t0"]
+    out = jl(d["output"]) if d.get("output") else None
+    if shape == "two-in-sequence":
+        want, at = {"k": 1, "a": {"answer": "first"}, "b": {"answer": "second"}}, 5.0
+        ok = d["status"] == "SUCCEEDED" and out == want
+    elif shape == "retried-after-failure":
+        want, at = {"k": 1, "a": {"answer": "fresh"}}, 7.0
+        ok = d["status"] == "SUCCEEDED" and out == want
+    else:
+        want, at = [{"k": 1, "a": {"answer": "first"}}, {"k": 1, "b": {"answer": "second"}}], 4.0
+        ok = d["status"] == "SUCCEEDED" and out == want
+    if not ok:
+        add(findings, "callback-result", "%s: execution ended %s output=%r error=%r, expected SUCCEEDED %r" % (
+            shape, d["status"], d.get("output"), d.get("error"), want), witness=shape)
+    elif meta["exact"] and abs(t_end - (t0 + at)) > TOL:
+        add(findings, "callback-completion-instant", "%s: ended at %.3f, last needed callback at %.3f" % (shape, t_end - t0, at),
+            witness=shape)
+    return res, findings
+
+
 def run_one(i, extra):
     seed = common.run_seed(i)
     rng = random.Random(seed)
-    if rng.random() < 0.6:
+    if rng.random() < 0.12:
+        scn, meta = seq_case(rng, seed)
+        res, findings = check_seq(scn, meta, seed)
+        kind = "token-seq"
+    elif rng.random() < 0.6:
         scn, meta = child_case(rng, seed)
         res, findings = check_child(scn, meta, seed)
         kind = "child"
@@ -388,7 +528,7 @@ def run_one(i, extra):
         f["meta"] = meta
         f["kind"] = kind
     probes = {"kind:" + kind: 1}
-    for k in ("form", "kind", "placement", "stream", "flavour", "policy"):
+    for k in ("form", "kind", "placement", "stream", "flavour", "policy", "shape"):
         if k in meta:
             probes["%s:%s" % (k, meta[k])] = 1
     return common.summarize_run(res, PROP, findings, True, {"kind": kind, "meta": meta}, probes,
@@ -399,7 +539,7 @@ def main(argv):
     if len(argv) > 1 and argv[0] == "--replay":
         with open(argv[1]) as f:
             rec = json.load(f)
-        fn = check_child if rec["kind"] == "child" else check_token
+        fn = {"child": check_child, "token-seq": check_seq}.get(rec["kind"], check_token)
         res, findings = fn(rec["scenario"], rec["meta"], rec["seed"])
         same = [f for f in findings if f["rule"] == rec["rule"]]
         print("replay %s: %s" % (argv[1], "REPRODUCED rule=%s%s" % (rec["rule"], common.digest_note(rec, same)) if same else "not reproduced"))
@@ -415,7 +555,10 @@ def main(argv):
              "in Map iterations x STANDARD/EXPRESS parent and child (including the invalid combinations and an unknown "
              "machine) x with/without Catch; callback streams on rpcmessage and startExecution .waitForTaskToken tasks: "
              "valid, duplicate, late, forged, truncated tokens, SendTaskFailure, ordinary reply before the callback, error "
-             "reply, always beside a second waiting task that is completed by its own token; seeded schedule policy; "
+             "reply, always beside a second waiting task that is completed by its own token; several token requests in one "
+             "execution (two callback Tasks in sequence, in parallel, a callback Task retried after SendTaskFailure: each "
+             "request carries its own token, the stale one completes nothing); children that succeed with a falsy output "
+             "([] {} 0 \"\" false); seeded schedule policy; "
              "oracles: result shape and fields, completion instant of the synchronous forms, States.TaskFailed carrying "
              "the child's error, no child progress after the parent's time-out, token completes exactly its task once, "
              "other tokens rejected as InvalidToken without affecting any task; distinct = distinct parameter tuples",
